@@ -9,7 +9,7 @@ Line protocol for C10 (name-keyed access = positional access, whatever the looku
   six <c>                              new SplitIndexer                 → ok
   cix <c> [<phase>]                    new single-phase indexer (phase l by default) → ok
   mix <c> <phases>                     new multi-phase indexer          → ok <sorted phases>
-  array|split <c> <key> <data>         chemicals.array / split (IDs, data)  → v:… | err=…
+  array|split|iarray|isplit <c> <key> <data>   chemicals.array / split / iarray / isplit(data, order=IDs) → v:… | err=…
   getm <ix> <key> / setm <ix> <key> <data>   indexer.by_mass()[key] (= …)  → as get / set (molar data shown)
   get <ix> <key>                       indexer[key]                     → s:… | v:… | m:… | err=…
   set <ix> <key> <data>                indexer[key] = data              → ok m:<all data> | err=…
@@ -59,7 +59,8 @@ def parseRats (s : String) : Option (List Rat) := (splitComma s).mapM parseRat?
 def parseData (s : String) : Option Data :=
   if s.startsWith "s:" then (parseRat? (s.drop 2).toString).map .scalar
   else if s.startsWith "v:" then (parseRats (s.drop 2).toString).map .vec
-  else if s == "m:" then some .mat
+  else if s.startsWith "m:" then
+    ((splitOn1 (s.drop 2).toString ';').mapM parseRats).map .mat
   else none
 
 def parseSpec (s : String) : Option Spec :=
@@ -80,8 +81,10 @@ def parseOp (line : String) : Option Op :=
   | ["group", c, name, ids, comp, "wt"] => do
     let comp ← if comp == "-" then some none else (parseRats comp).map some
     some (.group (← c.toNat?) name (splitComma (dash ids)) comp true)
-  | ["array", c, key, d] => do some (.array (← c.toNat?) false (← parseKey key) (← parseData d))
-  | ["split", c, key, d] => do some (.array (← c.toNat?) true (← parseKey key) (← parseData d))
+  | ["array", c, key, d] => do some (.array (← c.toNat?) .array (← parseKey key) (← parseData d))
+  | ["split", c, key, d] => do some (.array (← c.toNat?) .split (← parseKey key) (← parseData d))
+  | ["iarray", c, key, d] => do some (.array (← c.toNat?) .iarray (← parseKey key) (← parseData d))
+  | ["isplit", c, key, d] => do some (.array (← c.toNat?) .isplit (← parseKey key) (← parseData d))
   | ["getm", i, key] => do some (.getMass (← i.toNat?) (← parseKey key))
   | ["setm", i, key, d] => do some (.setMass (← i.toNat?) (← parseKey key) (← parseData d))
   | ["cix", c] => do some (.newChemIx (← c.toNat?) 'l')
